@@ -60,7 +60,7 @@ struct Cfg {
     methods: BTreeMap<String, String>,
     fns: BTreeMap<String, String>,
     pre: Vec<String>,
-    consts: BTreeSet<String>,
+    consts: BTreeMap<String, String>,
     kind: String,
     noncomputable: bool,
     drop_fields: BTreeSet<String>,
@@ -127,6 +127,8 @@ struct Tr<'a> {
     ctr: std::cell::Cell<usize>,
     /// innermost loop last: (state variables, whether the loop body contains `return`)
     loops: std::cell::RefCell<Vec<(Vec<String>, bool)>>,
+    /// nesting depth of `for` folds whose `continue` ends the current iteration
+    folds: std::cell::RefCell<Vec<Vec<String>>>,
 }
 
 fn has_return_expr(e: &Expr) -> bool {
@@ -359,8 +361,8 @@ impl<'a> Tr<'a> {
                 }
                 if p.path.segments.len() == 1 {
                     let n = p.path.segments[0].ident.to_string();
-                    if self.cfg.consts.contains(&n) {
-                        return Ok(format!("({} : K)", n));
+                    if let Some(ty) = self.cfg.consts.get(&n) {
+                        return Ok(format!("({} : {})", n, ty));
                     }
                     return Ok(ident(&n));
                 }
@@ -438,6 +440,18 @@ impl<'a> Tr<'a> {
             }
             Expr::Index(i) => {
                 let base = self.expr(&i.expr)?;
+                if let Expr::Range(r) = &*i.index {
+                    // `v[a..b]`, `v[a..=b]`, `v[a..]`, `v[..b]`
+                    let lo = match &r.start { Some(x) => self.expr(x)?, None => "0".into() };
+                    let hi = match &r.end {
+                        Some(x) => {
+                            let h = self.expr(x)?;
+                            if matches!(r.limits, RangeLimits::Closed(_)) { format!("({} + 1)", h) } else { h }
+                        }
+                        None => format!("(List.length {})", base),
+                    };
+                    return Ok(format!("(listSlice {} {} {})", base, lo, hi));
+                }
                 let idx = self.expr(&i.index)?;
                 Ok(format!("(listGet {} {})", base, idx))
             }
@@ -929,6 +943,15 @@ impl<'a> Tr<'a> {
     }
 
     fn loop_jump(&self, is_break: bool) -> R<String> {
+        if let Some(vars) = self.folds.borrow().last() {
+            // innermost enclosing construct is a `for` fold
+            if !vars.is_empty() || true {
+                if is_break {
+                    return Err("`break` inside a `for` that is translated as a fold is unsupported".into());
+                }
+                return Ok(self.tuple_of(vars));
+            }
+        }
         let loops = self.loops.borrow();
         let (vars, has_ret) = loops.last().ok_or("`break`/`continue` outside a loop")?;
         let tuple = self.tuple_of(vars);
@@ -977,6 +1000,7 @@ impl<'a> Tr<'a> {
         let st = format!("st_{}", n);
         let tuple = self.tuple_of(&vars);
         self.loops.borrow_mut().push((vars.clone(), has_ret));
+        let saved_folds = std::mem::take(&mut *self.folds.borrow_mut());
         let result: R<String> = (|| {
             let mut step = String::new();
             self.rebind_from(&vars, &st, &mut step);
@@ -998,6 +1022,7 @@ impl<'a> Tr<'a> {
             Ok(step)
         })();
         self.loops.borrow_mut().pop();
+        *self.folds.borrow_mut() = saved_folds;
         let step = result?;
         let fuel = self.cfg.loop_fuel;
         let upd = format!("upd_{}", n);
@@ -1023,7 +1048,6 @@ impl<'a> Tr<'a> {
         struct J(bool);
         impl<'ast> visit::Visit<'ast> for J {
             fn visit_expr_break(&mut self, _: &'ast ExprBreak) { self.0 = true; }
-            fn visit_expr_continue(&mut self, _: &'ast ExprContinue) { self.0 = true; }
             fn visit_expr_return(&mut self, _: &'ast ExprReturn) { self.0 = true; }
             fn visit_expr_closure(&mut self, _: &'ast ExprClosure) {}
         }
@@ -1074,7 +1098,10 @@ impl<'a> Tr<'a> {
         self.rebind_from(&vars, &st, &mut body);
         self.bind_pat(&f.pat, &it, &mut body)?;
         let tuple = self.tuple_of(&vars);
-        body.push_str(&self.stmts(&f.body.stmts, &|_| Ok(tuple.clone()))?);
+        self.folds.borrow_mut().push(vars.clone());
+        let body_code = self.stmts(&f.body.stmts, &|_| Ok(tuple.clone()));
+        self.folds.borrow_mut().pop();
+        body.push_str(&body_code?);
         let mut out = String::new();
         let folded = format!("(foldlT {} {} (fun {} {} =>\n{}))", iter, tuple, st, it, body);
         let upd = format!("upd_{}", n);
@@ -1338,12 +1365,12 @@ fn main() {
 
     // names of all targets (callable from each other)
     let mut known = BTreeSet::new();
-    let mut consts = BTreeSet::new();
+    let mut consts: BTreeMap<String, String> = BTreeMap::new();
     for m in modules {
         for t in m.get("targets").and_then(|t| t.as_array()).expect("targets") {
             let name = get_str(t, "name").expect("target name");
             if get_str(t, "kind").as_deref() == Some("const") {
-                consts.insert(name.clone());
+                consts.insert(name.clone(), get_str(t, "ret").unwrap_or_else(|| "K".to_string()));
             }
             known.insert(name);
         }
@@ -1432,7 +1459,7 @@ fn main() {
                 errors.push(format!("{}: item `{}` found {} times in {}", cfg.name, cfg.item, found.len(), cfg.file));
                 continue;
             }
-            let tr = Tr { cfg: &cfg, known: &known, ctr: std::cell::Cell::new(0), loops: std::cell::RefCell::new(vec![]) };
+            let tr = Tr { cfg: &cfg, known: &known, ctr: std::cell::Cell::new(0), loops: std::cell::RefCell::new(vec![]), folds: std::cell::RefCell::new(vec![]) };
             let result: R<(String, usize, usize, String)> = (|| match &found[0] {
                 Found::Const(c) => {
                     let v = tr.expr(&c.expr)?;
@@ -1497,7 +1524,7 @@ fn main() {
                         body_stmts.push(parse_str::<Stmt>(&format!("return {};", tail_key)).unwrap());
                         let mut cfg2 = cfg.clone();
                         cfg2.subst.push((norm(tail_key), tail));
-                        let tr2 = Tr { cfg: &cfg2, known: &known, ctr: std::cell::Cell::new(0), loops: std::cell::RefCell::new(vec![]) };
+                        let tr2 = Tr { cfg: &cfg2, known: &known, ctr: std::cell::Cell::new(0), loops: std::cell::RefCell::new(vec![]), folds: std::cell::RefCell::new(vec![]) };
                         body.push_str(&tr2.stmts(&body_stmts, &|v| Ok(v))?);
                     } else {
                         body.push_str(&tr.stmts(&body_stmts, &|v| Ok(tr.with_state(v)))?);
